@@ -5,6 +5,10 @@ import concurrent.futures as cf
 import glob, json, os, re, shutil, subprocess, sys
 
 VERIF = "/verif"
+WAVE2 = "--wave2" in sys.argv
+CFDIR = "/tmp/cf2" if WAVE2 else "/tmp/cf"
+SRCROOT = "/tmp/mutout2" if WAVE2 else "/tmp/mutout"
+KOFF = 3 if WAVE2 else 0
 ALL = ["C01", "C02", "C03", "C04", "C05", "C08", "C09", "C10", "C11", "C12", "C13", "C14", "C15", "C16", "C17", "C18", "C19", "C20"]
 
 
@@ -30,7 +34,8 @@ def detect(patch):
 def one(jf):
     j = json.load(open(jf))
     P, k = j["property"], j["k"]
-    src = f"/tmp/mutout/{P}/{k}"
+    src = f"{SRCROOT}/{P}/{k}"
+    k = str(int(k) + KOFF)
     ok = j.get("apply") == "ok" and j.get("demo_with_patch_exit") == "1" and j.get("demo_without_patch_exit") == "0" and \
         j.get("stable_tests_not_passing") == []
     if not ok:
@@ -50,6 +55,7 @@ def one(jf):
     meta = {
         "property": P,
         "seed": f"{P}-{k}",
+        "round": 2 if WAVE2 else 1,
         "summary": title[:300],
         "needs_to_manifest": needs or "see notes.md",
         "what_was_run": {
@@ -70,8 +76,8 @@ def one(jf):
 
 
 def main():
-    files = sorted(glob.glob("/tmp/cf/C*_*.json"))
-    only = sys.argv[1:]
+    files = sorted(glob.glob(CFDIR + "/C*_*.json"))
+    only = [a for a in sys.argv[1:] if not a.startswith("--")]
     if only:
         files = [f for f in files if any(o in f for o in only)]
     with cf.ThreadPoolExecutor(4) as ex:
